@@ -20,7 +20,9 @@ Step == /\ l >= 1 /\ l <= Len(Traces[tid].ev)
         /\ LET ev == Traces[tid].ev[l]
                cand == Outcomes([st EXCEPT !.term = FALSE], ev.op)
                ms == {o \in cand : o.r = ev.r /\ Reads(o.s.it, ev) /\ (ev.hastwin => Reads(frozen, ev.twin))} IN
-           IF ms # {} THEN \E o \in ms : st' = o.s /\ l' = l + 1 /\ tid' = tid /\ frozen' = (IF ev.fork THEN o.s.it ELSE frozen)
+           (* a "pure" event built a new set (or answered a predicate) from the object: its reads are those of the result, *)
+           (* and the object itself is what it was                                                                        *)
+           IF ms # {} THEN \E o \in ms : st' = (IF ev.pure THEN st ELSE o.s) /\ l' = l + 1 /\ tid' = tid /\ frozen' = (IF ev.fork THEN o.s.it ELSE frozen)
            ELSE /\ PrintT(<<"REJECT", ToJson([tid |-> tid, l |-> l, st |-> st, frozen |-> frozen, exp |-> {[r |-> o.r, it |-> o.s.it] : o \in cand}])>>)
                 /\ l' = 0 /\ UNCHANGED <<tid, st, frozen>>
 Spec == Init /\ [][Step]_vars
